@@ -44,6 +44,11 @@ def run(chk):
                    steps=[dict(op="sumsq_red", args=[0], kw=dict(axis=0, keepdims=False))], outs=[1], family="map-reduction"),
               dict(inputs=[dict(shape=[3, 10], chunks=[3, 2], dtype="int64", seed=3, pattern="lin", src="asarray")],
                    steps=[dict(op="sumsq_red", args=[0], kw=dict(axis=1, keepdims=True))], outs=[1], family="map-reduction")]
+    # stack of differently chunked inputs in both orders (the declared chunks must be those of the unified inputs)
+    for order, rch in (([0, 1], [6, 3]), ([1, 0], [6, 3]), ([1, 0], [3, 1]), ([0, 1], [1, 3])):
+        forced.append(dict(inputs=[dict(shape=[6, 3], chunks=[2, 3], dtype="int64", seed=1, pattern="lin", src="asarray")],
+                           steps=[dict(op="rechunk", args=[0], kw=dict(chunks=rch)), dict(op="stack", args=order, kw=dict(axis=0))],
+                           outs=[2], family="stack-mixed"))
     n += len(forced)
     while len(docs) < n and tries < n * 3:
         tries += 1
